@@ -121,6 +121,8 @@ def run(tier, seed, rng):
             for i in names[:6]:
                 for falsy in (None, 0, b'', []):
                     G.add_default(c, {i: falsy}, tag='falsy')
+            # a second default-constructed packet after the first one was mutated in place (lists grown, nested packets changed)
+            G.add_extra(c, dict(op='default_after', value=pktcases.jvalue(('pkt', c, {}))))
             for sub in subsets:
                 kw = {i: v[2][i] for i in sub if v is not None and i in v[2]}
                 G.add_default(c, kw)
@@ -140,7 +142,16 @@ def run(tier, seed, rng):
                 failures.append(dict(kind='oracle', sig='defaults-falsy-keyword', what='a keyword argument with a falsy value (None, 0, b"", []) did not override the field it names',
                                      classes=pktprops.class_source(groups, r['group']), cls=decl.cname(r['c']),
                                      keywords=decl.py_value(r['value']), observed=r['outcome'], required=want))
-    dist = dict(constructed=0, with_keywords=0, pack_compared=0, falsy_keywords=falsy_checked)
+    after = 0
+    for r in records:
+        if r['kind'] == 'extra:default_after' and isinstance(r['outcome'], dict) and 'ok' in r['outcome']:
+            table = pktprops.table_of(groups, r['group'])
+            want = expected(table, r['c'], {})
+            after += 1
+            if r['outcome']['ok'] != want:
+                failures.append(dict(kind='oracle', sig='defaults-after-mutation', what='a packet constructed after another default-constructed packet was mutated in place does not hold the declared defaults',
+                                     classes=pktprops.class_source(groups, r['group']), cls=decl.cname(r['c']), observed=r['outcome'], required=want))
+    dist = dict(constructed=0, with_keywords=0, pack_compared=0, falsy_keywords=falsy_checked, after_mutation=after)
     recs = [r for r in records if r['kind'] in ('default', 'pack') and r.get('tag') != 'falsy']
     it = iter(recs)
     for (gid, c, kw) in meta:
@@ -162,7 +173,7 @@ def run(tier, seed, rng):
                 rule=("random class tables with user-supplied defaults on integers, bits, strings, repeated and optional fields and nested "
                       "prototypes with keyword overrides; for classes of up to 6 fields every subset of fields overridden by keyword (else the empty "
                       "set and each single field); the constructed packet is compared with the declared defaults computed from the declaration, "
-                      "and its pack() with the pack() of the same packet built with every default spelled out"),
+                      "and its pack() with the pack() of the same packet built with every default spelled out; a second default construction after the first packet was mutated in place (lists grown, nested packets changed) must still hold the declared defaults"),
                 samples=[dict(classes=pktprops.class_source(groups, meta[0][0]), keywords=str(meta[0][2]), outcome=recs[0]['outcome'])],
                 distribution=dist, failures=failures, disagreements=disagreements)
 
